@@ -19,9 +19,16 @@ extend C07's no-panic clause into it.
                                 `Float::max(a, T::from(c))` is at least `c`
   C07G_find_shift_panics        empty slice or precision > 15: the asserts fire (both profiles)
   C07G_quantize_parameter_range lpc.rs `quantize_parameter`: total, result an i16 (it is the saturating cast)
+  C07G_quantize_clamp           the clamp `min(max(v, -(1 << (p-1))), (1 << (p-1)) - 1)` lands in the `p`-bit range (1 <= p <= 15)
+  C07G_quantize_parameters_ok   lpc.rs `quantize_parameters(coefs, precision)`: for 1..=24 float coefficients (`qlpc::MAX_ORDER`, the
+                                capacity of `q_coefs`), precision 1..=15 and EVERY float behaviour (two IEEE facts as for find_shift):
+                                no panic in either profile, and the value handed on - `coefs()` = the first `order` lanes, `shift`,
+                                `precision` - satisfies `OEvent.Ok` (Lemmas/StrictSubEnc.lean): the shape assumption the end-to-end
+                                theorems make about a logged `qlpc` event is discharged for the integer part of the source
 -/
 import FlacVerif.Gen.FloatSkel
 import FlacVerif.Theorems.C01Gen
+import FlacVerif.Lemmas.StrictSubEnc
 namespace FlacVerif.C07Gen
 open FlacVerif FlacVerif.Gen.Lpc FlacVerif.Gen.FloatSkel FlacVerif.C01Gen
 
@@ -188,6 +195,147 @@ theorem C07G_quantize_parameter_range {F : Type} (fOfInt : Int → F) (fprim : S
     -(32768 : Int) ≤ quantize_parameter fOfInt fprim fToInt p shift ∧ quantize_parameter fOfInt fprim fToInt p shift ≤ 32767 := by
   unfold quantize_parameter
   exact hrange _
+
+/-- the coefficient clamp of `quantize_parameters` -/
+theorem C07G_quantize_clamp (p : Nat) (hp : 1 ≤ p ∧ p ≤ 15) (v : Int) :
+    SubFrame.inRange p (min (max v (-(2 ^ (p - 1) : Int))) ((2 ^ (p - 1) : Int) - 1)) = true := by
+  have hP : (1 : Int) ≤ 2 ^ (p - 1) := by
+    have : (1 : Nat) ≤ 2 ^ (p - 1) := Nat.one_le_two_pow
+    exact_mod_cast this
+  unfold SubFrame.inRange
+  generalize (2 ^ (p - 1) : Int) = P at hP ⊢
+  simp only [Bool.and_eq_true, decide_eq_true_eq]
+  omega
+
+theorem pow_small (p : Nat) (hp : 1 ≤ p ∧ p ≤ 15) : (1 : Int) ≤ 2 ^ (p - 1) ∧ (2 ^ (p - 1) : Int) ≤ 16384 := by
+  have h1 : (1 : Nat) ≤ 2 ^ (p - 1) := Nat.one_le_two_pow
+  have h2 : 2 ^ (p - 1) ≤ 2 ^ 14 := Nat.pow_le_pow_right (by omega) (by omega)
+  constructor
+  · exact_mod_cast h1
+  · have : ((2 ^ (p - 1) : Nat) : Int) ≤ ((2 ^ 14 : Nat) : Int) := by exact_mod_cast h2
+    simpa using this
+
+theorem loopM_list_total_bind {α σ β : Type} (f : α → σ → Option σ) (I : σ → Prop) (k : σ → Option β) (P : β → Prop) :
+    ∀ (xs : List α) (s0 : σ), I s0 → (∀ x ∈ xs, ∀ s, I s → ∃ s', f x s = some s' ∧ I s') →
+      (∀ s, I s → ∃ b, k s = some b ∧ P b) → ∃ b, (loopM xs s0 f).bind k = some b ∧ P b := by
+  intro xs
+  induction xs with
+  | nil => intro s0 h0 _ hk; exact hk s0 h0
+  | cons x xs ih =>
+    intro s0 h0 h hk
+    obtain ⟨s', e, hi⟩ := h x (by simp) s0 h0
+    rw [loopM, e]
+    exact ih s' hi (fun y hy => h y (by simp [hy])) hk
+
+theorem tailZeros_le (xs : List Int) : tailZeros xs ≤ xs.length := by
+  unfold tailZeros
+  have h : ∀ l : List Int, (l.takeWhile (fun x => decide (x = 0))).length ≤ l.length := by
+    intro l
+    induction l with
+    | nil => simp
+    | cons a l ih =>
+      rw [List.takeWhile_cons]
+      split
+      · simp only [List.length_cons]; omega
+      · simp
+  have := h xs.reverse
+  simpa using this
+
+set_option maxRecDepth 8192 in
+/-- **`quantize_parameters`** never panics for 1..=24 coefficients and precision 1..=15, whatever the float code computes,
+and what it hands on is a parameter set `OEvent.Ok` accepts (1..=24 coefficients, each in the `precision`-bit range,
+shift in 0..=15, precision 1..=15). -/
+theorem C07G_quantize_parameters_ok {F : Type} (dbg : Bool) (fprim : String → List F → F) (fOfInt : Int → F)
+    (fToInt : Nat → F → Int) (coefs : List F) (precision : Nat)
+    (hn : 1 ≤ coefs.length ∧ coefs.length ≤ 24) (hp : 1 ≤ precision ∧ precision ≤ 15)
+    (hrange : ∀ x, -(32768 : Int) ≤ fToInt 16 x ∧ fToInt 16 x ≤ 32767)
+    (hmax : ∀ a (c : Int), -(32768 : Int) ≤ c → c ≤ 32767 → c ≤ fToInt 16 (fprim "Float::max" [a, fOfInt c])) :
+    ∃ q, quantize_parameters dbg fprim fOfInt fToInt coefs precision = some q ∧
+      (OEvent.qlpc (q.coefs.take q.order) q.shift q.precision).Ok ∧ q.coefs.length = 32 := by
+  have hne : coefs ≠ [] := by intro e; rw [e] at hn; simp at hn
+  have hemp : coefs.isEmpty = false := by cases coefs with | nil => exact absurd rfl hne | cons _ _ => rfl
+  obtain ⟨sh, hsh, hs0, hs15⟩ := C07G_find_shift dbg fprim fOfInt fToInt coefs precision hne hp.2 hrange hmax
+  obtain ⟨hP1, hP2⟩ := pow_small precision hp
+  unfold quantize_parameters
+  rw [hemp]
+  simp only [Bool.false_eq_true, if_false, hsh, Option.bind_some]
+  have h24 : FlacVerif.Gen.Const.qlpc_MAX_ORDER = 24 := rfl
+  rw [h24]
+  refine loopM_list_total_bind _ (fun q => q.length = 24 ∧ ∀ c ∈ q, SubFrame.inRange precision c = true) _ _ _ _ ?h0 ?hstep ?hk
+  case h0 =>
+    refine ⟨by simp, ?_⟩
+    intro c hc
+    rw [List.mem_replicate] at hc
+    rw [hc.2]
+    have := C07G_quantize_clamp precision hp 0
+    unfold SubFrame.inRange at this ⊢
+    simp only [Bool.and_eq_true, decide_eq_true_eq] at this ⊢
+    omega
+  case hstep =>
+    intro x hx q hq
+    obtain ⟨n, coef⟩ := x
+    have hnlt : n < coefs.length := by
+      have := (List.of_mem_zip hx).1
+      simpa using this
+    simp only []
+    rw [subU_ok dbg 64 _ _ hp.1]
+    simp only [Option.bind_some]
+    rw [shAmt_ok dbg 16 _ (by omega)]
+    simp only [Option.bind_some, Int.one_mul]
+    rw [wrapS16_small _ (by omega), arithS16_ok dbg _ (by omega)]
+    simp only [Option.bind_some]
+    rw [arithS16_ok dbg _ (by omega)]
+    simp only [Option.bind_some, setAt]
+    rw [if_pos (by omega)]
+    refine ⟨_, rfl, by simp [hq.1], ?_⟩
+    intro c hc
+    rcases List.mem_or_eq_of_mem_set hc with h | h
+    · exact hq.2 c h
+    · rw [h]; exact C07G_quantize_clamp precision hp _
+  case hk =>
+    intro q hq
+    have htz := tailZeros_le q
+    rw [subU_ok dbg 64 _ _ htz]
+    simp only [Option.bind_some]
+    have hord : 1 ≤ max 1 (q.length - tailZeros q) ∧ max 1 (q.length - tailZeros q) ≤ 24 := by omega
+    rw [sliceR_ok q 0 _ ⟨Nat.zero_le _, by omega⟩]
+    simp only [Option.bind_some, List.drop_zero]
+    have hsl : (q.take (max 1 (q.length - tailZeros q))).length = max 1 (q.length - tailZeros q) := by
+      rw [List.length_take]; omega
+    have hfp := C01G_from_parts dbg (q.take (max 1 (q.length - tailZeros q))) sh precision (by omega)
+    rw [hsl] at hfp
+    rw [hfp]
+    simp only [Option.bind_some]
+    refine ⟨_, rfl, ?_, by simp [mkQ]; omega⟩
+    have htake : (mkQ (q.take (max 1 (q.length - tailZeros q))) sh precision).coefs.take
+        (mkQ (q.take (max 1 (q.length - tailZeros q))) sh precision).order = q.take (max 1 (q.length - tailZeros q)) := by
+      unfold mkQ
+      exact List.take_left' rfl
+    rw [htake]
+    show OEvent.Ok (.qlpc _ sh precision)
+    unfold OEvent.Ok
+    refine ⟨by omega, by unfold maxLpcOrder; omega, hp.1, hp.2, hs0, hs15, ?_⟩
+    intro c hc
+    exact hq.2 c (List.mem_of_mem_take hc)
+
+/-- ... and such a parameter set is one `QuantizedParameters::new` / `verify` accepts (hand model `QParams.verify`, tied to
+verify.rs by `C18G_qparams_verify`) -/
+theorem C07G_ok_verify (coefs : List Int) (shift : Int) (precision : Nat) (h : (OEvent.qlpc coefs shift precision).Ok) :
+    (QParams.mk coefs shift precision).verify = true := by
+  obtain ⟨_, h2, h3, h4, h5, h6, h7⟩ := h
+  unfold QParams.verify
+  simp only [Bool.and_eq_true, decide_eq_true_eq, List.all_eq_true]
+  refine ⟨⟨⟨⟨⟨by unfold maxLpcOrder at h2; exact h2, h5⟩, h6⟩, h3⟩, h4⟩, ?_⟩
+  intro c hc
+  have := h7 c hc
+  unfold SubFrame.inRange at this
+  simp only [Bool.and_eq_true, decide_eq_true_eq] at this
+  omega
+
+/-- non-vacuity: 3 coefficients quantised with integer stand-ins for the floats; the trailing zero is trimmed -/
+example : (quantize_parameters (F := Int) true (fun op l => if op = "Float::max" then max (l.getD 0 0) (l.getD 1 0) else l.getD 0 0) id
+    (fun _ x => max (-32768) (min x 32767)) [3, -70000, 0] 12).map (fun q => (q.coefs.take q.order, q.shift, q.precision, q.order))
+    = some ([3, -2048], 8, 12, 2) := by decide
 
 /-- non-vacuity of `C07G_find_shift`: floats instantiated by integers, `max` by the integer maximum, the cast by a clamp -/
 example : find_shift (F := Int) true (fun op l => if op = "Float::max" then max (l.getD 0 0) (l.getD 1 0) else l.getD 0 0) id
